@@ -292,10 +292,10 @@ Example C13_witness_gap_strings :
 Proof. exact (conj eq_refl (conj eq_refl (conj eq_refl (conj eq_refl (conj eq_refl eq_refl))))). Qed.
 
 (* ================================================================== round 7: the pattern language (model/C13_Rx.v) *)
-(* the gap-tolerant rewriting of cane.py:217-222, which works on the pattern TEXT character by character, is the tree-level
-   rewriting "put the class of the gap characters between two neighbours of a concatenation whose texts end / begin with a letter
-   or '.'", for every pattern tree whose classes have no two neighbouring letters (those are torn apart: PENDING FIX class_gap) *)
-Theorem C13_rx_rewrite_text_is_tree : forall g r, cls_gap_ok r = true -> rw g (show r) = show (gapify g r).
+(* the gap-tolerant rewriting of cane.py:217-223 (after fix 7e33c72: re.findall units, a character class '[...]' is one letter
+   unit), which works on the pattern TEXT, is the tree-level rewriting "put the class of the gap characters between two neighbours
+   of a concatenation whose texts end / begin with a letter, '.' or a class", for every pattern tree of the subset *)
+Theorem C13_rx_rewrite_text_is_tree : forall g r, rx_ok r = true -> rw g (show r) = show (gapify g r).
 Proof. exact rw_show_gapify. Qed.
 Print Assumptions C13_rx_rewrite_text_is_tree.
 
@@ -386,25 +386,27 @@ Theorem C13_rf_strands : forall l,
 Proof. exact (fun l => conj (has_fwd_iff l) (has_bwd_iff l)). Qed.
 Print Assumptions C13_rf_strands.
 
-(* non-vacuity for the pattern language: A[TU]G without gap tolerance (the C13-16 witness: the text is longer than the sequence),
-   AT+G with gap tolerance on both strands, the rewriting on texts, a torn class, groupby *)
+(* non-vacuity for the pattern language: A[TU]G without gap tolerance (the C13-16 witness: the text is longer than the sequence)
+   and with the default gap (the class_gap witness, fixed in /repo by 7e33c72), AT+G with gap tolerance on both strands, the rewriting on texts, groupby *)
 Example C13_witness_rx :
   let r := XCat (XChr x41) (XCat (XCls false (bs "TU"%bs)) (XChr x47)) in
   wf_rx [bs "ATG"%bs] (bs "A[TU]G"%bs) r (RfArg (RStr (bs "both"%bs))) 0 None = true /\
   matchall_m (m_rx (eff_rx None r)) (bs "ATG"%bs) (Some [0; 1; 2; -1; -2; -3]) 0 None = [mk_bm 0 3 (bs "ATG"%bs) (Some 0)] /\
-  cls_gap_ok r = false /\ rw (bs "-"%bs) (show r) = bs "A[T[-]*U]G"%bs.
-Proof. exact (conj eq_refl (conj eq_refl (conj eq_refl eq_refl))). Qed.
+  rw (bs "-"%bs) (show r) = bs "A[-]*[TU][-]*G"%bs /\
+  wf_rx [bs "A-TG"%bs] (bs "A[TU]G"%bs) r (RfArg (RStr (bs "fwd"%bs))) 0 (Some [x2d]) = true /\
+  matchall_m (m_rx (eff_rx (Some [x2d]) r)) (bs "A-TG"%bs) (Some [0; 1; 2]) 0 (Some [x2d]) = [mk_bm 0 4 (bs "A-TG"%bs) (Some 0)].
+Proof. exact (conj eq_refl (conj eq_refl (conj eq_refl (conj eq_refl eq_refl)))). Qed.
 
 Example C13_witness_rx_gap :
   let r := XCat (XChr x41) (XCat (XPlus (XChr x54)) (XChr x47)) in
   wf_rx [bs "CA-TTGCAT"%bs] (bs "AT+G"%bs) r (RfArg (RStr (bs "both"%bs))) 0 (Some [x2d]) = true /\
-  gapfree [x2d] r = true /\ cls_gap_ok r = true /\
+  gapfree [x2d] r = true /\
   show (gapify [x2d] r) = bs "A[-]*T+G"%bs /\ rw [x2d] (bs "AT+G"%bs) = bs "A[-]*T+G"%bs /\
   matchall_m (m_rx (eff_rx (Some [x2d]) r)) (bs "CA-TTGCAT"%bs) (Some [0; 1; 2; -1; -2; -3]) 0 (Some [x2d])
   = [mk_bm 1 6 (bs "A-TTG"%bs) (Some 1); mk_bm 6 9 (bs "ATG"%bs) (Some (-1)); mk_bm 0 4 (bs "A-TG"%bs) (Some (-3))] /\
   groupby_rf [mk_bm 1 6 (bs "A-TTG"%bs) (Some 1); mk_bm 6 9 (bs "ATG"%bs) (Some (-1)); mk_bm 7 9 (bs "TG"%bs) (Some 1)]
   = [(Some 1, [mk_bm 1 6 (bs "A-TTG"%bs) (Some 1); mk_bm 7 9 (bs "TG"%bs) (Some 1)]); (Some (-1), [mk_bm 6 9 (bs "ATG"%bs) (Some (-1))])].
-Proof. exact (conj eq_refl (conj eq_refl (conj eq_refl (conj eq_refl (conj eq_refl (conj eq_refl eq_refl)))))). Qed.
+Proof. exact (conj eq_refl (conj eq_refl (conj eq_refl (conj eq_refl (conj eq_refl eq_refl))))). Qed.
 
 (* ================================================================== round 7, second part *)
 (* GAP TRANSPARENCY (unbounded).  For plain words (non-empty, letters that are neither "." nor gap characters; true of start and
